@@ -461,3 +461,29 @@ func SortSlice(x any, less func(i, j int) bool) {
 		}
 	}
 }
+
+// ErrorsAs is the reflection-free replacement of errors.As (AssignIfMatches is an engine intrinsic).
+func ErrorsAs(err error, target any) bool {
+	for i := 0; i < 16 && err != nil; i++ {
+		if AssignIfMatches(err, target) {
+			return true
+		}
+		if x, ok := err.(interface{ As(any) bool }); ok && x.As(target) {
+			return true
+		}
+		switch x := err.(type) {
+		case interface{ Unwrap() error }:
+			err = x.Unwrap()
+		case interface{ Unwrap() []error }:
+			for _, e := range x.Unwrap() {
+				if e != nil && ErrorsAs(e, target) {
+					return true
+				}
+			}
+			return false
+		default:
+			return false
+		}
+	}
+	return false
+}
